@@ -50,6 +50,7 @@ static double pdf1(int id, double x)
 		case 21: return std::exp(-std::fabs(x));
 		case 22: return 4.0 * std::exp(-0.5 * x * x);
 		case 24: return std::fabs(x - 5.0) < 1.0 ? 1.0 - std::fabs(x - 5.0) : 0.0;	// triangle on [4,6]: support is a small part of a wide domain
+		case 26: return std::exp(-0.5 * (x - 90.0) * (x - 90.0));				// unit Gaussian at 90: the tails underflow to exactly 0 beyond ~38.6
 		case 25: return (x >= 2.0 && x <= 3.0) ? 1.0 : 0.0;						// box on [2,3]
 		case 23: return std::exp(-0.5 * (x - 50.0) * (x - 50.0) / 0.25);   // narrow peak: underflows to exactly 0 beyond |x-50| > 19.4
 	}
@@ -66,6 +67,8 @@ static double pdf2(int id, double x, double y)
 		case 4: return 1.0 / ((1.0 + x * x) * (1.0 + y * y * y * y));
 		case 20: return std::exp(-0.5 * (x * x + 0.25 * y * y));
 		case 22: return 3.0 * std::exp(-0.5 * (x * x + y * y));
+		case 24: return (std::fabs(x - 5.0) < 1.0 ? 1.0 - std::fabs(x - 5.0) : 0.0) * (std::fabs(y) < 1.0 ? 1.0 - std::fabs(y) : 0.0);	 // support [4,6]x[-1,1]
+		case 25: return std::exp(-0.5 * ((x - 90.0) * (x - 90.0) + y * y));	  // N((90,0),(1,1)): exactly 0 far from the peak
 		case 23: return std::exp(-0.5 * ((x - 50.0) * (x - 50.0) + (y - 50.0) * (y - 50.0)) / 0.25);   // exact-zero plateau around a narrow peak
 	}
 	return 0.0;
